@@ -38,7 +38,7 @@ type fileEdits struct {
 	path  string
 	src   []byte
 	edits []edit
-	needs map[string]bool // imports to add: alias -> path handled below
+	keepImport []string // imports whose only uses may have been rewritten away
 }
 
 var (
@@ -145,7 +145,16 @@ func main() {
 func apply(p *packages.Package, f *ast.File, fe *fileEdits) []byte {
 	// import goes right after the package clause
 	nameEnd := p.Fset.Position(f.Name.End()).Offset
-	fe.edits = append(fe.edits, edit{pos: nameEnd, end: nameEnd, text: "; import verifrt \"verif/rt\""})
+	imp := "; import verifrt \"verif/rt\""
+	fe.edits = append(fe.edits, edit{pos: nameEnd, end: nameEnd, text: imp})
+	seen := map[string]bool{}
+	for _, k := range fe.keepImport {
+		if !seen[k] {
+			seen[k] = true
+			// the rewritten call may have been the only use of the standard maps package in this file
+			fe.edits = append(fe.edits, edit{pos: len(fe.src), end: len(fe.src), text: fmt.Sprintf("\nvar _ = %s.Keys[map[int]int]\n", k)})
+		}
+	}
 	sort.SliceStable(fe.edits, func(i, j int) bool { return fe.edits[i].pos < fe.edits[j].pos })
 	var out bytes.Buffer
 	last := 0
@@ -224,7 +233,25 @@ func instrMaps(p *packages.Package, f *ast.File, fe *fileEdits, strict bool) []s
 						if pn, ok := p.TypesInfo.Uses[id].(*types.PkgName); ok {
 							full := pn.Imported().Path() + "." + sel.Sel.Name
 							switch full {
-							case "maps.Keys", "maps.Values", "maps.All", "golang.org/x/exp/maps.Keys", "golang.org/x/exp/maps.Values":
+							case "maps.Keys", "maps.Values", "maps.All":
+								// same iterator types as the controlled versions: replace the callee
+								if len(x.Args) != 1 {
+									fatal("%s: unexpected arity of %s", p.Fset.Position(x.Pos()), full)
+								}
+								tv, ok := p.TypesInfo.Types[x.Args[0]]
+								mt, isMap := tv.Type.Underlying().(*types.Map)
+								if !ok || !isMap || !ordered(mt.Key()) {
+									fatal("%s: %s over a map whose key type cannot be ordered", p.Fset.Position(x.Pos()), full)
+								}
+								site := fmt.Sprintf("%s#%d", fn, idx)
+								idx++
+								sites = append(sites, site)
+								repl := map[string]string{"maps.Keys": "Iter", "maps.Values": "IterValues", "maps.All": "Iter2"}[full]
+								s := p.Fset.Position(x.Fun.Pos()).Offset
+								e := p.Fset.Position(x.Lparen).Offset + 1
+								fe.edits = append(fe.edits, edit{pos: s, end: e, text: fmt.Sprintf("verifrt.%s(%q, ", repl, site)})
+								fe.keepImport = append(fe.keepImport, pn.Name())
+							case "golang.org/x/exp/maps.Keys", "golang.org/x/exp/maps.Values":
 								fatal("%s: %s is a map-order source the instrumenter does not control", p.Fset.Position(x.Pos()), full)
 							}
 						}
